@@ -43,7 +43,7 @@ def ensure_generic_use(rng, E):
     return E
 
 
-def rand_variant(rng, ident, generics, allow_default=True, allow_disabled=True, p_lit=0.6, lits=None, used=None):
+def rand_variant(rng, ident, generics, allow_default=True, allow_disabled=True, p_lit=0.6, lits=None, used=None, allow_transparent=False):
     lits = lits or LITS
     kind = rng.choice(["unit", "unit", "tuple", "named"])
     nf = 0 if kind == "unit" else rng.choice([0, 1, 1, 1, 2, 3])       # `V()` and `V {}` are legal variants too
@@ -58,6 +58,8 @@ def rand_variant(rng, ident, generics, allow_default=True, allow_disabled=True, 
     dis = allow_disabled and rng.random() < 0.15
     aci = rng.choice([2, 2, 2, 1, 0])
     v = variant(ident, kind, fields, ser=ser, ts=ts, dis=dis, aci=aci, acif=rng.randrange(2))
+    if allow_transparent and nf == 1 and not dis and rng.random() < 0.12:
+        v["transp"] = True          # consumed by Display / AsRefStr / IntoStaticStr; EnumString parses the variant like any other
     if dis and rng.random() < 0.4:
         # `disabled` in a later #[strum(..)] attribute, after a non-strum attribute
         v["aci"] = 2
@@ -97,7 +99,7 @@ def sample_def(rng, did, nmax=8, perr=None, phf=False, fieldless=False, default_
             vs.append(default_variant(rng, ident))
             has_def = True
             continue
-        v = rand_variant(rng, ident, generics, lits=lits)
+        v = rand_variant(rng, ident, generics, lits=lits, allow_transparent=True)      # (parse corpora: EnumString ignores `transparent`)
         if fieldless:
             v["kind"], v["fields"], v["nf"], v["dwith"] = "unit", [], 0, ""
         vs.append(v)
@@ -105,7 +107,7 @@ def sample_def(rng, did, nmax=8, perr=None, phf=False, fieldless=False, default_
     if phf is None:
         phf = generics == "none" and all(v["kind"] == "unit" or v["def"] for v in vs) and rng.random() < 0.5
     E = enum(did, vs, style=style, aci=rng.random() < 0.3, phf=phf, generics=generics, split=rng.randrange(2),
-             perr=(rng.random() < 0.4 if perr is None else perr) and not has_def,
+             perr=(rng.random() < 0.4 if perr is None else perr) and (not has_def or (perr is None and rng.random() < 0.5)),
              prefix=rng.choice([None, None, None, "p/", " "]))        # a prefix belongs to the printing derives: EnumString ignores it
     return ensure_generic_use(rng, E)
 
@@ -161,6 +163,8 @@ def dictionary(start_id):
     for eaci in (False, True):
         add([variant("Fmt", ser=["json"], ts="JSON", aci=0), variant("Other", ser=["yaml"], ts="YAML"), variant("Third", ser=["toml"], ts="TOML", aci=1),
              variant("Plain", ser=["ini", "INI."])], aci=eaci)
+    # a type parameter without a Default bound under payloads that are Default for every T
+    add([variant("Unit"), variant("Opt", "tuple", [field("optT")], ser=["o"]), variant("Named", "named", [field("phT", "p"), field("u8", "n")])], generics="tynd")
     # more variants than a byte counts
     add([variant("Name%d" % k, aci=(1 if k % 50 == 3 else 2), dis=(k % 97 == 11)) for k in range(300)], style="kebab-case")
     # empty enum, single variant
@@ -363,7 +367,8 @@ def names_def(rng, did, allow_prefix=True, styles=None, fieldless=False, nmax=6)
         elif not fieldless and r < 0.14:
             ty = "sstr"      # AsRefStr / IntoStaticStr need AsRef<str> / Into<&'static str> of the inner value
             named = rng.random() < 0.4
-            v = variant(ident, "named" if named else "tuple", [field(ty, rng.choice(FIELD_NAMES) if named else "")], transp=True)
+            v = variant(ident, "named" if named else "tuple", [field(ty, rng.choice(FIELD_NAMES) if named else "")], transp=True,
+                        ser=(rng.sample(NAME_LITS, 1) if rng.random() < 0.4 else []), ts=(rng.choice(NAME_LITS) if rng.random() < 0.3 else None))
         vs.append(v)
     E = enum(did, vs, style=rng.choice(styles or (["none"] * 5 + STYLES + ALIASES)),
              prefix=rng.choice(PREFIXES) if allow_prefix else None, aci=rng.random() < 0.2,
